@@ -72,7 +72,82 @@ def _expr(n, env, src):
                 if t == "vec":
                     return ("vec", "(VScale %s %s)" % (q, ee))
         raise TranslateError("line %d: unsupported multiplication %s" % (n.lineno, ast.get_source_segment(src, n)))
+    if isinstance(n, ast.Call):
+        seg = ast.get_source_segment(src, n)
+        if seg in env:
+            return env[seg]
     raise TranslateError("line %d: unsupported expression %s" % (getattr(n, "lineno", 0), ast.dump(n)[:80]))
+
+
+def read_calc_reaction(repo):
+    """`_Simu.Calc_Reaction`: every write into `reaction` must be `reaction[dofs] (+)= <matrix>[dofs] @ <state vector>`
+    with the pairs (K, u_n), (C, v_n), (M, a_n); `dofs` may only be the owned dofs or the given dofs filtered by
+    them; the function returns `Reduce_sum(reaction)` (MPI) or `reaction[dofs]` (serial)."""
+    path = os.path.join(repo, "EasyFEA", "Simulations", "_simu.py")
+    src = open(path).read()
+    tree = ast.parse(src)
+    f = None
+    for node in ast.walk(tree):
+        if isinstance(node, ast.ClassDef) and node.name == "_Simu":
+            for g in node.body:
+                if isinstance(g, ast.FunctionDef) and g.name == "Calc_Reaction":
+                    f = g
+    if f is None:
+        raise TranslateError("_Simu.Calc_Reaction not found")
+    pairs = {"K": "self._Get_u_n(problemType)", "C": "self._Get_v_n(problemType)", "M": "self._Get_a_n(problemType)"}
+    terms = []
+    returns = []
+    for st in ast.walk(f):
+        if isinstance(st, (ast.Assign, ast.AugAssign)):
+            tgt = st.targets[0] if isinstance(st, ast.Assign) else st.target
+            if isinstance(st, ast.Assign) and len(st.targets) != 1:
+                raise TranslateError("line %d: multiple assignment targets" % st.lineno)
+            seg = ast.get_source_segment(src, tgt)
+            if isinstance(tgt, ast.Name) and tgt.id == "reaction":
+                if not ast.get_source_segment(src, st.value).startswith("np.zeros("):
+                    raise TranslateError("line %d: reaction is not initialised with zeros" % st.lineno)
+                continue
+            if isinstance(tgt, ast.Name) and tgt.id == "dofs":
+                v = ast.get_source_segment(src, st.value)
+                if v not in ("ownedDofs", "dofs[np.isin(dofs, ownedDofs)]"):
+                    raise TranslateError("line %d: dofs = %s is neither the owned dofs nor the given dofs filtered by them" % (st.lineno, v))
+                continue
+            if isinstance(tgt, ast.Name) and tgt.id == "ownedDofs":
+                if ast.get_source_segment(src, st.value) != "self.Get_dofs(problemType)":
+                    raise TranslateError("line %d: ownedDofs is not self.Get_dofs(problemType)" % st.lineno)
+                continue
+            if seg is not None and seg.startswith("reaction"):
+                if seg != "reaction[dofs]":
+                    raise TranslateError("line %d: write into %s (only reaction[dofs] is accepted)" % (st.lineno, seg))
+                if isinstance(st, ast.AugAssign) and not isinstance(st.op, ast.Add):
+                    raise TranslateError("line %d: unsupported augmented assignment" % st.lineno)
+                v = st.value
+                if not (isinstance(v, ast.BinOp) and isinstance(v.op, ast.MatMult)):
+                    raise TranslateError("line %d: term is not a matrix-vector product" % st.lineno)
+                mats = [n.id for n in ast.walk(v.left) if isinstance(n, ast.Name) and n.id in pairs]
+                if len(mats) != 1:
+                    raise TranslateError("line %d: cannot identify the matrix of the term" % st.lineno)
+                env = {"x": None}
+                env = {mats[0]: ("mat", "MA"), pairs[mats[0]]: ("vec", "VX")}
+                t, e = _expr(v, env, src)
+                if t != "vec":
+                    raise TranslateError("line %d: term is not a vector" % st.lineno)
+                terms.append((mats[0], e, isinstance(st, ast.AugAssign)))
+        if isinstance(st, ast.Return) and st.value is not None:
+            returns.append(ast.get_source_segment(src, st.value))
+    if not terms or terms[0][0] != "K" or terms[0][2]:
+        raise TranslateError("the first write into reaction[dofs] is not the K term")
+    if sorted(returns) != sorted(["Reduce_sum(reaction)", "reaction[dofs]"]):
+        raise TranslateError("Calc_Reaction returns %s (expected Reduce_sum(reaction) under MPI, reaction[dofs] in serial)" % returns)
+    return {"terms": terms, "line": f.lineno}
+
+
+def emit_coq_reaction(r):
+    return ("(* GENERATED from EasyFEA/Simulations/_simu.py (_Simu.Calc_Reaction, line %d) by translator/C20_energy.py *)\n"
+            "From Coq Require Import QArith List.\nFrom EFModel Require Import C20_CalcEnergy.\nImport ListNotations.\n"
+            "(* one entry per write `reaction[dofs] (+)= M[dofs] @ state`; MA/VX stand for the pair (K,u_n), (C,v_n) or (M,a_n) *)\n"
+            "Definition calc_reaction_terms : list vexpr := [%s].\n"
+            % (r["line"], "; ".join(e for _, e, _ in r["terms"])))
 
 
 def read_calc_energy(repo):
